@@ -2,7 +2,7 @@
    implementation responses.  Mismatch tags: "S:" = an observable the property itself
    determines (status class, S3 code, body, ETag, listing contents) — a spec failure;
    "M:" = an ancillary observable only the model fixes (header presence etc.). *)
-From GF Require Import Base.Lit Base.Int64 Model.Mem Model.Handlers Model.Uploader Model.Chunk Model.MemVersions Extract.Checks.
+From GF Require Import Base.Lit Base.Int64 Model.Mem Model.Handlers Model.Uploader Model.Chunk Model.MemVersions Model.PutPath Extract.Checks.
 Open Scope string_scope.
 Open Scope list_scope.
 Open Scope Z_scope.
@@ -45,7 +45,9 @@ Inductive hop :=
 | HListParts (b k uid : list N) (marker limit : Z)
 | HListUploads (b pre : list N) (delim : option N) (key_marker id_marker : list N) (limit : Z)
 | HChunkedPut (b k stream : list N) (sched : list Z) (eofw : bool) (declared : Z) (payload : list N)
-| HListVersions (b pre : list N) (delim : option N) (km vm : list N) (maxkeys : Z).
+| HListVersions (b pre : list N) (delim : option N) (km vm : list N) (maxkeys : Z)
+| HPutRaw (b k : list N) (h : headers) (body : list N) (fail_after : option Z) (integrity : bool) (meta_limit : Z)
+| HPartRaw (b k uid pn_text : list N) (h : headers) (body : list N) (fail_after : option Z) (integrity : bool).
 
 Record hstate := { hs_model : state; hs_tbl : list (N * list N);
                    hs_up : ustate; hs_utbl : list (N * list N);
@@ -391,9 +393,51 @@ Definition versions_step (md5 : list N -> list N) (c : config) (hs : hstate) (o 
   | _ => (hs, [])
   end.
 
+(* raw uploads (C08) *)
+Definition pstatus_of (e : perr) : Z * list N :=
+  match e with
+  | PNoSuchBucket => (404, B "NoSuchBucket") | PMetadataTooLarge => (400, B "MetadataTooLarge")
+  | PMissingContentLength => (411, B "MissingContentLength") | PBadRequestNoCode => (400, [])
+  | PKeyTooLong => (400, B "KeyTooLongError") | PInvalidDigest => (400, B "InvalidDigest")
+  | PBadDigest => (400, B "BadDigest") | PIncompleteBody => (400, B "IncompleteBody")
+  | PInternal => (500, B "InternalError") | PInvalidPart => (400, B "InvalidPart")
+  | PNoSuchUpload => (404, B "NoSuchUpload")
+  end.
+(* a rejection is the property-level fact; the precise code is model-level *)
+Definition exp_perr (e : perr) (ob : obs) : list (list N) :=
+  expect (negb (ob_panic ob)) "S:panic" ++ expect (negb (ok_status (ob_status ob))) "S:rejected-upload-accepted" ++
+  expect (ob_status ob =? fst (pstatus_of e)) "M:status" ++ expect (beq (ob_code ob) (snd (pstatus_of e))) "M:code".
+
+Definition tracked_of (h : headers) : meta :=
+  filter (fun kv => prefixb (B "X-Amz-Meta-") (fst kv) || beq (fst kv) (B "Content-Type") ||
+                    beq (fst kv) (B "Content-Disposition") || beq (fst kv) (B "Content-Encoding")) h.
+
+Definition raw_step (md5 : list N -> list N) (c : config) (hs : hstate) (o : hop) (ob : obs)
+  : hstate * list (list N) :=
+  match o with
+  | HPutRaw b k h body fa integrity ml =>
+      match put_request md5 c integrity ml (hs_model hs) b k h {| br_data := body; br_fail_after := fa |} (tracked_of h) with
+      | (s', inl e) => (with_model hs s', exp_perr e ob)
+      | (s', inr (recv, vid)) =>
+          let '(t', vm) := check_vid (hs_tbl hs) vid ob in
+          ({| hs_model := s'; hs_tbl := t'; hs_up := hs_up hs; hs_utbl := hs_utbl hs; hs_fs := hs_fs hs |},
+           expect (negb (ob_panic ob)) "S:panic" ++ expect (ok_status (ob_status ob)) "S:valid-upload-refused" ++
+           expect (beq (ob_etag ob) (etag_of md5 recv)) "S:put-etag" ++ vm)
+      end
+  | HPartRaw b k uid pn h body fa integrity =>
+      match part_request md5 hex_of integrity (hs_up hs) b k (uid_in (hs_utbl hs) uid) pn h {| br_data := body; br_fail_after := fa |} with
+      | (u', inl e) => ({| hs_model := hs_model hs; hs_tbl := hs_tbl hs; hs_up := u'; hs_utbl := hs_utbl hs; hs_fs := hs_fs hs |}, exp_perr e ob)
+      | (u', inr et) => ({| hs_model := hs_model hs; hs_tbl := hs_tbl hs; hs_up := u'; hs_utbl := hs_utbl hs; hs_fs := hs_fs hs |},
+                         expect (negb (ob_panic ob)) "S:panic" ++ expect (ok_status (ob_status ob)) "S:valid-upload-refused" ++
+                         expect (beq (ob_etag ob) et) "S:part-etag")
+      end
+  | _ => (hs, [])
+  end.
+
 Definition hist_step (md5 : list N -> list N) (c : config) (hs : hstate) (o : hop) (ob : obs)
   : hstate * list (list N) :=
   match o with
+  | HPutRaw _ _ _ _ _ _ _ | HPartRaw _ _ _ _ _ _ _ _ => raw_step md5 c hs o ob
   | HListVersions _ _ _ _ _ _ => versions_step md5 c hs o ob
   | HChunkedPut _ _ _ _ _ _ _ => chunked_put_step md5 c hs o ob
   | HInitiate _ _ _ | HUploadPart _ _ _ _ _ | HComplete _ _ _ _ | HAbort _ _ _
